@@ -4,6 +4,8 @@ package dhcp4_spoofer
 
 import (
 	"bytes"
+	"crypto/sha256"
+	"encoding/hex"
 	"net/netip"
 	"os"
 	"sort"
@@ -100,6 +102,9 @@ func (h *Handler) VerifAgeFile(clientID []byte, d time.Duration) bool {
 		Net2   *SubnetConfig
 		Leases []Lease
 	}{}
+	// an integrity line (`# sha256: <hex>`) is a YAML comment for the decoder; it is written again below when the
+	// file had one (computed here, independently of the library, so that this file builds against any version)
+	sealed := bytes.HasPrefix(source, []byte("# sha256: "))
 	if err := yaml.Unmarshal(source, &table); err != nil {
 		return false
 	}
@@ -116,6 +121,10 @@ func (h *Handler) VerifAgeFile(clientID []byte, d time.Duration) bool {
 	stream, err := yaml.Marshal(&table)
 	if err != nil {
 		return false
+	}
+	if sealed {
+		sum := sha256.Sum256(stream)
+		stream = append([]byte("# sha256: "+hex.EncodeToString(sum[:])+"\n"), stream...)
 	}
 	return os.WriteFile(h.filename, stream, os.ModePerm) == nil
 }
